@@ -42,6 +42,13 @@ static void scenario() {
         else if (streq(k, "pfor")) { guarded("parallel_for", [&] { Obj o; tbb::parallel_for(tbb::blocked_range<int>(0, 4, 1), [o](const tbb::blocked_range<int>&) { body(); }, tbb::simple_partitioner()); });
             mask = 0; thrown.clear(); int before = inv; guarded("parallel_for (again)", [&] { tbb::parallel_for(0, 2, [](int) { body(); }); }); if (inv != before + 2) vf_fail("second parallel_for did not run all bodies"); }
         else if (streq(k, "pfor_auto")) { guarded("parallel_for", [&] { tbb::parallel_for(0, 5, [](int) { body(); }); }); }
+        else if (streq(k, "pfor_split") || streq(k, "pfor_bodycopy")) {   // the Range's splitting constructor / the Body's copy constructor throws while parallel_for builds its task tree
+            struct RG { int b, e; RG(int x, int y) : b(x), e(y) {} RG(const RG&) = default; RG(RG& r, tbb::split) : b((r.b + r.e) / 2), e(r.e) { body(); r.e = b; } bool empty() const { return b >= e; } bool is_divisible() const { return e - b > 1; } };
+            struct BD { Obj o; bool thrower; BD(bool t) : thrower(t) {} BD(const BD& x) : o(x.o), thrower(x.thrower) { if (thrower) body(); } void operator()(const RG&) const { vf_point(); } void operator()(const tbb::blocked_range<int>&) const { vf_point(); } };
+            int part = (int)vf_param_int("part", 0);
+            if (streq(k, "pfor_split")) guarded("parallel_for", [&] { BD bd(false); if (part == 0) tbb::parallel_for(RG(0, 4), bd, tbb::simple_partitioner()); else if (part == 1) tbb::parallel_for(RG(0, 4), bd, tbb::auto_partitioner()); else tbb::parallel_for(RG(0, 4), bd, tbb::static_partitioner()); });
+            else guarded("parallel_for", [&] { BD bd(true); if (part == 0) tbb::parallel_for(tbb::blocked_range<int>(0, 4, 1), bd, tbb::simple_partitioner()); else tbb::parallel_for(tbb::blocked_range<int>(0, 4, 1), bd, tbb::auto_partitioner()); });
+            mask = 0; thrown.clear(); int before = inv; guarded("parallel_for (again)", [&] { tbb::parallel_for(0, 2, [](int) { body(); }); }); if (inv != before + 2) vf_fail("a later parallel_for did not run all bodies"); }
         else if (streq(k, "reduce_body")) { guarded("parallel_reduce", [&] { tbb::parallel_reduce(tbb::blocked_range<int>(0, 4, 1), 0, [](const tbb::blocked_range<int>& r, int v) { body(); return v + (int)r.size(); }, [](int a, int b) { return a + b; }, tbb::simple_partitioner()); }); }
         else if (streq(k, "reduce_join")) { guarded("parallel_reduce", [&] { tbb::parallel_reduce(tbb::blocked_range<int>(0, 4, 1), 0, [](const tbb::blocked_range<int>& r, int v) { return v + (int)r.size(); }, [](int a, int b) { body(); return a + b; }, tbb::simple_partitioner()); }); }
         else if (streq(k, "reduce_split")) { struct B { Obj o; int s = 0; B() {} B(B&, tbb::split) { body(); } void operator()(const tbb::blocked_range<int>& r) { s += (int)r.size(); } void join(B& o2) { s += o2.s; } };
